@@ -4,8 +4,8 @@ import hashlib, json, os, sys, time
 import vf
 import matchers
 
-EVID = os.path.join(vf.ROOT, "evidence")
-REPLAYS = os.path.join(vf.ROOT, "replays")
+EVID = os.environ.get("VERIF_EVID", os.path.join(vf.ROOT, "evidence"))        # (VERIF_EVID / VERIF_REPLAYS: internal, see lib/seed_par.sh)
+REPLAYS = os.environ.get("VERIF_REPLAYS", os.path.join(vf.ROOT, "replays"))
 
 
 class Run:
